@@ -67,7 +67,7 @@ theorem scan_ok (stack : List Item) (hs : StackOK stack) (si bi bp : Nat) :
         obtain ⟨r, i, p, h1, h2⟩ := ih hrest (si + 1) bi bp
         exact ⟨.ex (.var id) :: r, i, p, by simp [scan, h1], StackOK_cons rfl h2⟩
       | operator o =>
-        by_cases hp : prio o ≤ bp
+        by_cases hp : better o bp = true
         · obtain ⟨r, i, p, h1, h2⟩ := ih hrest (si + 1) si (prio o)
           exact ⟨.tok (.operator o) :: r, i, p, by simp [scan, hp, h1], StackOK_cons rfl h2⟩
         · obtain ⟨r, i, p, h1, h2⟩ := ih hrest (si + 1) bi bp
